@@ -1049,7 +1049,16 @@ func runCanary(c Canary, tier string) (status string, detail string) {
 			}
 			for _, b := range runBounded(c.Property, tier) {
 				if !b.Passed {
-					failed = append(failed, c.Property+"/bounded["+b.Name+"]")
+					nm := c.Property + "/bounded[" + b.Name + "]"
+					isK := false
+					for _, k := range known {
+						if k.Property == c.Property && k.Obligation == nm && k.Status == "open" && k.Signature != "" && strings.Contains(b.Output, k.Signature) {
+							isK = true
+						}
+					}
+					if !isK {
+						failed = append(failed, nm)
+					}
 				}
 			}
 			extraOverlay = map[string]string{}
